@@ -280,6 +280,7 @@ package resource
 //@   ensures [no-cache] u.intersectionMask == nil
 //@   modifies nothing
 //@
+//@ property C01 C02 C04 C05 C06 C07
 //@ func (*Value).set(value, request) (res, err)
 //@   requires wfValue(recv) && !isnil(value)
 //@   requires ref(value) != ref(recv.value)     // callers hand in their own message, never the stored one
@@ -294,6 +295,10 @@ package resource
 //@   // update mask, writable fields and reset mask): that function is handed to the atomic update as it is, unwrapped
 //@   track GetAndUpdate
 //@   ensures [request-change-fn] calls(GetAndUpdate) > old(calls(GetAndUpdate)) ==> isfunc(lastarg(GetAndUpdate, 2), changeFn$1)
+//@   // C02: a write that loses the race is reported (Aborted), never tried again on the same message: the request's
+//@   // before-interceptors have already edited the caller's message against the value that lost, so a second pass would
+//@   // apply them twice (a delta interceptor would add the old value in twice: a total no one-at-a-time order explains)
+//@   ensures [single-attempt] calls(GetAndUpdate) <= old(calls(GetAndUpdate)) + 1
 //@   ensures [type] err == nil ==> sametype(res, value) && ref(res) != nil
 //@   ensures [one-event] err == nil ==> calls(Send) == old(calls(Send)) + 1
 //@   ensures [event-value] err == nil ==> istype(lastarg(Send, 2), *ValueChange) && cast(lastarg(Send, 2), *ValueChange).Value == res
@@ -307,6 +312,7 @@ package resource
 //@   ensures [fresh-store] err == nil ==> fresh(res) && res != value
 //@   ensures [old-untouched] !isnil(old(recv.value)) ==> msgval(old(recv.value)) == old(msgval(recv.value))
 //@
+//@ property C01 C04 C05 C06 C07
 //@ // ---- events are filtered on clones: the read mask is applied to the new AND the old value, every other field of the
 //@ // event is kept, and neither the event nor its messages are written (C06, C04, C07)
 //@ pure func projected(out, in, f) = (f.fields == nil ==> equalmsg(out, in)) && (isnil(in) ==> isnil(out)) &&
